@@ -5,7 +5,7 @@ even / zero / negative / > 2**53 ints and floats and quantities, set (default) o
 mutable configured value, split_dict, binomial, a divider dict with topology+config, a branch-level divider); explicit
 daughter initial states; in-place updates (dict_value updater) of one daughter after the division; two generations.
 """
-import argparse, copy, json, random
+import math, argparse, copy, json, random
 import numpy as np
 from bounded import lib as L
 from vivarium.core.engine import Engine
@@ -30,7 +30,7 @@ def agent_schema(vals):
         'f': {'_default': vals['f'], '_divider': 'split'},
         'q': {'_default': vals['q'] * units.fg, '_divider': 'split'},
         'bag': {'_default': {}, '_updater': 'dict_value'},                 # default divider: set
-        'z': {'_default': 9, '_divider': 'zero'},
+        'z': {'_default': vals.get('z', 9), '_divider': 'zero'},
         'tags': {'_default': {}, '_updater': 'dict_value', '_divider': {'divider': 'set_value', 'config': {'value': {}}}},
         'sd': {'_default': {}, '_updater': 'set', '_divider': 'split_dict'},
         'b': {'_default': vals['b'], '_divider': 'binomial'},
@@ -187,6 +187,8 @@ def check(sd):
     fails = []
     vals = {'n': rng.choice([0, 1, 7, 10, -3, -4, 2 ** 53 + 3, 10 ** 30 + 1]), 'f': rng.choice([0.0, 3.0, 2.5, -1.25]),
             'q': rng.choice([4.0, 1.5]), 'b': rng.choice([0, 1, 9, 100])}
+    # the zero divider gives zero whatever the mother holds -- also for values that are not finite
+    vals['z'] = random.Random(str(sd) + '-z').choice([9, 0, 2.5, math.inf, -math.inf, math.nan, 10 ** 30])
     sdict = {k: i for i, k in enumerate(rng.sample(['k1', 'k2', 'k3', 'k4', 'k5'], rng.choice([0, 1, 2, 3, 5])))}
     explicit = rng.random() < 0.5
     d1_init = {'plain': 55, 'n': 1000} if explicit else {}
